@@ -8,6 +8,17 @@ package matchrule
 // configured values by prefix / suffix / containment.  Checked panic-free for
 // every value, under what Prepare establishes (0 <= maxValueSize).
 
+// Prepare: every rule is usable afterwards, the one without values included
+// (Match panics on a rule that is not prepared: an antispam exception or a mask
+// match rule written without `values` would stop the pipeline at the first event).
+
+//@ func (*Rule).Prepare
+//@   ensures r.prepared && 0 <= r.minValueSize && r.minValueSize <= r.maxValueSize
+//@   ensures len(r.Values) == 0 ==> r.minValueSize == 0 && r.maxValueSize == 0
+//@   loop 1 invariant 0 <= minValueSize && minValueSize <= maxValueSize && len(r.Values) > 0
+//@   callee ToLower(s)
+//@     pure
+
 //@ func (*Rule).match
 //@   requires r.maxValueSize >= 0
 //@   loop 1 invariant true
@@ -17,7 +28,7 @@ package matchrule
 // every value, short ones included (no result is produced before the inversion).
 
 //@ func (*Rule).Match
-//@   option allow-panic yes
+//@   requires r.prepared
 //@   requires r.maxValueSize >= 0
 //@   ghost gm bool = false
 //@   ghost ncmp int = 0
